@@ -1147,7 +1147,7 @@ def run(ctx):
         ctx.violation({"property": "C28",
                        "broken": ("translator props/C28/translate.py (fail-closed): " + translate_error) if translate_error
                        else "correspondence C28.Gen.apply_impl = PSyDataTrans.validate/apply" if disagreements
-                       else "proof obligations of Properties/C28.v (regenerated tables no longer satisfy GenProofs.v)",
+                       else "proof obligations of Properties/C28.v (regenerated tables no longer satisfy TableProofs.v)",
                        "proof_report": proof_rep if not ok else None, "first_differing_case": first,
                        "n_differing": len(disagreements),
                        "searched": "every accepted placement was executed on 3 stores; no unbalanced trace outside the known findings"},
